@@ -42,7 +42,7 @@ fn tree(rng: &mut Rng, depth: u32) -> AbiType {
         0 => AbiType::Array { size: U256Wrapper(bw[rng.below(bw.len() as u64) as usize]), tp: Box::new(tree(rng, depth - 1)) },
         1 => AbiType::DynArray { tp: Box::new(tree(rng, depth - 1)) },
         2 => AbiType::Mapping { key_type: Box::new(tree(rng, depth - 1)), value_type: Box::new(tree(rng, depth - 1)) },
-        _ => AbiType::Struct { elements: (0..1 + rng.below(3)).map(|i| StructElement::new((i * 64) as usize, tree(rng, depth - 1))).collect() },
+        _ => AbiType::Struct { elements: (0..1 + rng.below(3)).map(|i| StructElement::new(((i * 64 + rng.below(4) * 101) % 256) as usize, tree(rng, depth - 1))).collect() },
     }
 }
 
@@ -60,6 +60,26 @@ fn c20_slot_json_round_trip() {
             Ok(back) if back == slot && back.index.0 == ix => {}
             Ok(back) => witness("C20", "hex.deserialize.reads_back_exactly", format!("index {ix:#x}"), format!("{:#x}", back.index.0), format!("{ix:#x}")),
             Err(e) => witness("C20", "hex.deserialize.reads_back_exactly", format!("index {ix:#x} json {txt}"), format!("Err({e})"), "Ok(equal entry)".into()),
+        }
+        cases += 1;
+    }
+    // every offset 0..=255 with a sub-byte type, and a struct whose elements are not in ascending offset order
+    for off in 0..256usize {
+        let slot = StorageSlot::new(U256Wrapper(U256::MAX), off, AbiType::Bits { length: Some(3) });
+        let txt = serde_json::to_string(&slot).unwrap();
+        match serde_json::from_str::<StorageSlot>(&txt) {
+            Ok(back) if back == slot => {}
+            other => witness("C20", "json.round_trip_equal", format!("offset {off}: {txt}"), format!("{other:?}").chars().take(200).collect(), "Ok(equal entry)".into()),
+        }
+        cases += 1;
+    }
+    {
+        let t = AbiType::Struct { elements: vec![StructElement::new(128, AbiType::UInt { size: Some(128) }), StructElement::new(0, AbiType::Address)] };
+        let slot = StorageSlot::new(U256Wrapper(U256::ONE), 0, AbiType::Mapping { key_type: Box::new(AbiType::Address), value_type: Box::new(t) });
+        let txt = serde_json::to_string(&slot).unwrap();
+        match serde_json::from_str::<StorageSlot>(&txt) {
+            Ok(back) if back == slot && serde_json::to_string(&back).unwrap() == txt => {}
+            other => witness("C20", "json.round_trip_equal", txt.clone(), format!("{other:?}").chars().take(300).collect(), "Ok(equal entry)".into()),
         }
         cases += 1;
     }
